@@ -67,6 +67,20 @@ Proof.
 Qed.
 Print Assumptions C21_limited_files_match_partial.
 
+(** 5b. The per-repository limit alone (indexData.List uses ShardRepoMaxMatchCount = 1) keeps at least one file of every
+    repository that has a file in the unlimited result, whatever the per-file match counts are. *)
+Theorem C21_repo_limit_keeps_every_repo :
+  forall (re_match : N -> list N -> bool) (tolower : N -> N) (orbit : N -> list N) (c : corpus)
+         (freq : bool -> bool -> tri -> N),
+  agree tolower orbit ->
+  (forall fn cs g, freq fn cs g = 0%N -> post orbit (ix_tris c fn) cs g = []) ->
+  forall (weight : nat -> list (list nat) -> nat) (lim : limits) (q : Q),
+  shard_max lim = 0 -> 0 < repo_max lim ->
+  forall k, In k (search re_match tolower orbit c freq q) ->
+  exists k', In k' (search_limited re_match tolower orbit c freq weight lim None q) /\ repo_idx c k' = repo_idx c k.
+Proof. exact search_repo_limit_keeps_repos. Qed.
+Print Assumptions C21_repo_limit_keeps_every_repo.
+
 (** 6. TotalMaxMatchCount (streamSearch): the results handed on are whole shard results -- a prefix of the arrival sequence. *)
 Theorem C21_total_limit_only_drops_shards : forall (A : Type) (limit inflight : nat) (rs : list (nat * list A)) (total : nat) (left : option nat),
   exists j, total_stream A limit inflight total left rs = firstn j (map snd rs).
